@@ -99,6 +99,7 @@ type c12inst struct {
 	runMaps string
 	runTcp  string
 	reloads int
+	owed    bool // the last HAProxyUpdate returned before it was past writeConfig (instance.rewriteOwed)
 }
 
 func newC12inst(queue bool, n int, names []int) *c12inst {
@@ -240,10 +241,14 @@ func (e *c12inst) arm(f c12fault) (restore func()) {
 		// refuse the configuration: block the file only when this update is going to write it
 		// (Shrink is idempotent; HAProxyUpdate calls it again)
 		e.inst.Config().Shrink()
+		fires := e.owed && f.k < e.n // after a failed write the next update renders every shard
 		for _, k := range e.inst.Config().Backends().ChangedShards() {
 			if k == f.k && e.n > 0 {
-				undo = append(undo, c12block(filepath.Join(e.cfgDir, fmt.Sprintf("haproxy5-backend%03d.cfg", f.k))))
+				fires = true
 			}
+		}
+		if fires {
+			undo = append(undo, c12block(filepath.Join(e.cfgDir, fmt.Sprintf("haproxy5-backend%03d.cfg", f.k))))
 		}
 	case "ad":
 		for _, i := range f.idxs {
@@ -569,6 +574,7 @@ func (e *c12inst) update(f c12fault) string {
 	restore := e.arm(f)
 	err := e.inst.HAProxyUpdate(utils.NewTimer(nil))
 	restore()
+	e.owed = err != nil && !strings.Contains(err.Error(), "error reloading server")
 	if err != nil && e.log.Keep {
 		fmt.Fprintln(os.Stderr, "C12 update error:", err)
 	}
